@@ -24,6 +24,27 @@ NOTES = ("All checks are property-based tests / fuzzers over generated inputs (D
 NOT_YET = {}
 
 TEXT = {
+    "C11": {
+        "engine": "engine-G",
+        "technique": "property-based testing: copy (constructor / assignment into empty / non-empty) of samples, generated scene graphs and synthesised files, then generated edit sequences on one side and destruction of it; byte-equality of raw saves and query-battery equality on the other side, under ASan",
+        "level_text": "Every sample x copy kind x edit kind x edited side (enumerated) and thousands of generated cases: the copy must save to the source's bytes, and no edit, save or destruction of one model may change what the other answers or writes; cached geometry pointers that still point into the other model surface as use-after-free under ASan.",
+        "level_note": "Bytes of a model under observation come from raw-saving a fresh copy of it; both sides are queried once before the reference bytes are taken because some getters fill caches lazily.",
+        "design_ref": "DESIGN.md section 3, C11",
+    },
+    "C12": {
+        "engine": "engine-G",
+        "technique": "property-based testing: generated Skyrim LE/SE models (all shape kinds, skins, strips, segments, colours, model-space shaders, duplicate names) and samples through OptimizeFor in both directions, with metamorphic there-and-back and save/reload; per-shape comparison with the storage formats' tolerances",
+        "level_text": "Thousands of LE and SE models x option combinations: positions bit-exact, triangle sets equal, UVs/colours/weights within storage precision, bone lists, shader, hierarchy, distinct sibling names, partition coverage, reload in the target version and conversion back are all checked. Two root causes (weights of unused vertices, SE files without NiSkinData weights) are recorded as known findings.",
+        "level_note": "Shapes are matched by geometry across the conversion; weights are compared after normalisation at 2e-3; NiOptimizeKeep is only put on unskinned shapes; head-part conversion only when every shape is dynamic-compatible.",
+        "design_ref": "DESIGN.md section 3, C12",
+    },
+    "C14": {
+        "engine": "engine-G",
+        "technique": "property-based testing: CloneShape of every sample shape and of generated shapes into the same model, a fresh model and another model; parallel walk of the cloned sub-graph comparing canonical block content (hooks H3/H4), source-unchanged and save/reload oracles",
+        "level_text": "Every shape of every sample x three destination kinds (enumerated) plus generated scene graphs, 1-3 repeated clonings: clone content equals the source's, every child reference resolves inside the destination to an equal block that is not shared with the source, bones exist by name, the source model's bytes are unchanged and the clone survives save+reload.",
+        "level_note": "Normals/tangents are not compared for Skyrim model-space shaders (dropped by design); generated source models keep block 0 as root (this library takes block 0, if a node, for the root).",
+        "design_ref": "DESIGN.md section 3, C14",
+    },
     "C04": {
         "engine": "engine-G",
         "technique": "property-based testing with an address-identity oracle: snapshots before/after PrettySortBlocks / Optimize / SetShapeOrder / default Save over generated scene graphs, synthesised files and samples; invariants on survivors, reference targets, child multisets, canonical payloads, idempotence and reload",
